@@ -183,6 +183,28 @@ def gen_T07():
             ns = ast.literal_eval(node.value.args[0])
     need(ns is not None and all(isinstance(x, str) for x in ns), 'Irc._nickSetters not found')
     need('msg.args[0] != self.nick' in ast.unparse(fm), 'Irc.feedMsg no longer reads msg.args[0] for nick setters')
+    # ---- utils.str.decode_raw_line: the codec error handlers it decodes with (send side assumes: no lone surrogates) ----
+    tu = tree('src/utils/str.py')
+    defs = [n for n in ast.walk(tu) if isinstance(n, ast.FunctionDef) and n.name == 'decode_raw_line']
+    need(len(defs) == 2, 'utils.str: expected the PY3 and PY2 definitions of decode_raw_line')
+    dec_handlers = []
+    for n in ast.walk(defs[0]):
+        if isinstance(n, ast.Call) and isinstance(n.func, ast.Attribute) and n.func.attr == 'decode':
+            h = n.args[1] if len(n.args) > 1 else None
+            for kw in n.keywords:
+                if kw.arg == 'errors':
+                    h = kw.value
+            need(h is None or (isinstance(h, ast.Constant) and isinstance(h.value, str)),
+                 'decode_raw_line: non-literal codec error handler')
+            dec_handlers.append('strict' if h is None else h.value)
+    need(dec_handlers, 'decode_raw_line: no .decode() call found')
+    need(not any(isinstance(n, ast.Raise) for n in ast.walk(defs[0])), 'decode_raw_line now raises')
+    # ---- SocketDriver._sendIfMsgs: the encode is where the model puts it (outside the try) ----
+    sm = find_def(ts, '_sendIfMsgs', 'SocketDriver')
+    need('self.conn.send(self.outbuffer.encode())' in ast.unparse(sm), '_sendIfMsgs: outbuffer.encode() moved')
+    ch = enclosing_tries(sm, lambda n: is_call(n, 'self.outbuffer.encode'))
+    need(len(ch) == 1 and len(ch[0]) == 1 and [handler_names(h) for h in ch[0][0].handlers] == [['socket.error']],
+         '_sendIfMsgs: the try around conn.send(outbuffer.encode()) changed: the model lets UnicodeEncodeError out')
     # ---- CPython facts: str.strip() whitespace, capitalize() of the command ----
     ws = [c for c in range(0x110000) if chr(c).isspace()]
     need(all(len(chr(c).strip()) == 0 for c in ws), 'isspace/strip mismatch')
@@ -208,5 +230,6 @@ def gen_T07():
     out += 'Definition CALLBACK_FIREWALLED : list (list N * bool) :=\n  %s.\n' % clist(
         '(%s, %s)' % (cstr(n), cbool(h)) for n, h, _ in cb_fw)
     out += 'Definition NICK_SETTERS : list (list N) :=\n  %s.\n' % clist(cstr(x) for x in sorted(ns))
+    out += 'Definition DECODE_HANDLERS : list (list N) := %s.\n' % clist(cstr(h) for h in dec_handlers)
     out += 'Definition PY_WS : list N := %s.\n' % clist('%d' % c for c in ws)
-    return 'src/drivers/Socket.py src/drivers/__init__.py src/log.py src/irclib.py', out
+    return 'src/drivers/Socket.py src/drivers/__init__.py src/log.py src/irclib.py src/utils/str.py', out
